@@ -1,4 +1,5 @@
 import TsVerif.C14.LexLemmas
+import TsVerif.C14.Sep
 /-!
 # C14 — The generated lexer implements the documented token disambiguation rules
 
@@ -47,6 +48,18 @@ Clause map — each phrase of the property text → theorems, with the status
        extras is skipped (the token starts at a non-extra character), the token is the chooser's answer at that position,
        is non-empty, and after the last token only extras remain; `tokenize_increasing`; `refTokenize_progress` (no fuel
        effects).  [T] real leaf positions = reference token positions.
+   Tokens that can BEGIN with a character that is also an extra (a line-break token next to /\s/ extras; TsVerif/C14/Sep.lean):
+   skipping and matching interleave in ONE automaton; `sepScan` is a code-shaped port of what `populate_state` /
+   `prefer_transition` do with separator transitions.
+   [P] `sepStep_cut_pure_separator` / `sepScan_cut_pure_separator` — rule A: in a state that has completed a token of
+       precedence ≥ 0, a character only the separator loop can take ends the scan: the completed token is returned before
+       further extras are skipped;  `sepStep_skip` — a pure separator transition moves the token start (SKIP).
+   [T] real lexer = `tokenizeSep` on every string of every such set (10 sets / ~130 000 strings per quick run), and
+       `tokenizeSep` = `skipExtras` + `lexScan` on every string of the sets WITHOUT such tokens (~296 000 strings per run;
+       OPEN as a theorem).  [J] `skippedToken`: walking the REAL tokens, no skipped position is the start of a valid
+       token; `overlapDeviation`: first deviation from the documented reading (skip extras up to the first position where
+       a token matches) — two classes are KNOWN FINDINGS (`sepeof`: trailing extras rejected after a partial token;
+       `sepabsorb`: a token's extent includes extras), anything else is a violation.
 6. "With a word token declared, a keyword is recognised only when the whole word equals it"
    [P] `keyword_whole_word` (only-if: a keyword is returned only when the main lexer matched the word token and the keyword
        lexer matched exactly the same characters), `keyword_matches_word`, `keyword_recognised` (if), per parse state:
